@@ -30,7 +30,7 @@ def run(ctx):
     import random
     q = ctx.quick
     behs = []
-    for cfg in ("MC_quick.cfg", "MC_win.cfg", "MC_open.cfg", "MC_dup.cfg"):
+    for cfg in ("MC_quick.cfg", "MC_win.cfg", "MC_open.cfg", "MC_dup.cfg", "MC_churn.cfg"):
         r = ctx.tlc("agent", "AgentDb", cfg, workers=4, timeout=1800)
         ctx.account(r)
         behs += r.emitted
